@@ -1,6 +1,9 @@
 package exec
 
-import "github.com/ChrisTrenkamp/xsel/store"
+import (
+	"github.com/ChrisTrenkamp/xsel/node"
+	"github.com/ChrisTrenkamp/xsel/store"
+)
 
 // ContextSettings allows you to add namespace mappings, create new functions,
 // and add variable bindings to your XPath query.
@@ -12,12 +15,39 @@ type ContextSettings struct {
 
 type ContextApply func(c *ContextSettings)
 
+// principalNodeType is the principal node type of the axis of the current
+// step: name tests only match nodes of that type.
+type principalNodeType int
+
+const (
+	principalElement principalNodeType = iota
+	principalAttribute
+	principalNamespace
+)
+
 type exprContext struct {
 	root             store.Cursor
 	result           Result
 	contextPosition  int
+	principal        principalNodeType
 	builtinFunctions map[XmlName]Function
 	ContextSettings
+}
+
+// isPrincipal reports whether n has the principal node type of the current axis.
+func (c *exprContext) isPrincipal(n node.Node) bool {
+	_, isAttribute := n.(node.Attribute)
+
+	switch c.principal {
+	case principalAttribute:
+		return isAttribute
+	case principalNamespace:
+		_, ok := n.(node.Namespace)
+		return ok
+	}
+
+	_, isNamed := n.(node.NamedNode)
+	return isNamed && !isAttribute
 }
 
 type Context interface {
